@@ -738,6 +738,74 @@ theorem Inv_removeEdge (g : Graph) (a b : Nat) (h : g.Inv) : (g.removeEdge a b).
       exact h1 e (List.mem_filter.mp he).1
     · exact h
 
+theorem shift_lt (v a b : Nat) (ha : a ≠ v) (hb : b ≠ v) (h : a < b) : shiftIdx v a < shiftIdx v b := by
+  unfold shiftIdx; split <;> split <;> omega
+
+theorem shift_le (v a b : Nat) (_ha : a ≠ v) (_hb : b ≠ v) (h : a ≤ b) : shiftIdx v a ≤ shiftIdx v b := by
+  unfold shiftIdx; split <;> split <;> omega
+
+theorem shift_inj (v a b : Nat) (ha : a ≠ v) (hb : b ≠ v) (h : shiftIdx v a = shiftIdx v b) : a = b := by
+  unfold shiftIdx at h; split at h <;> split at h <;> omega
+
+theorem shift_bound (v a n : Nat) (ha : a ≠ v) (hv : v < n) (h : a < n) : shiftIdx v a < n - 1 := by
+  unfold shiftIdx; split <;> omega
+
+theorem idxList_remove (l : List Nat) (v n : Nat) (hv : v < n) (hs : l.Pairwise (· < ·)) (hb : ∀ i ∈ l, i < n) :
+    ((l.erase v).map (shiftIdx v)).Pairwise (· < ·) ∧ ∀ i ∈ (l.erase v).map (shiftIdx v), i < n - 1 := by
+  have hnd : l.Nodup := hs.imp (fun h => Nat.ne_of_lt h)
+  have hmem : ∀ a, a ∈ l.erase v → a ∈ l ∧ a ≠ v := by
+    intro a ha
+    have := (List.Nodup.mem_erase_iff hnd).mp ha
+    exact ⟨this.2, this.1⟩
+  constructor
+  · rw [List.pairwise_map]
+    have hsub : (l.erase v).Pairwise (· < ·) := hs.sublist List.erase_sublist
+    exact hsub.imp_of_mem (fun {a b} ha hb' hab => shift_lt v a b (hmem a ha).2 (hmem b hb').2 hab)
+  · intro i hi
+    obtain ⟨a, ha, rfl⟩ := List.mem_map.mp hi
+    exact shift_bound v a n (hmem a ha).2 hv (hb a (hmem a ha).1)
+
+theorem Inv_removeVertex (g : Graph) (v : Nat) (h : g.Inv) : (g.removeVertex v).1.Inv := by
+  unfold Graph.removeVertex
+  split
+  · exact h
+  · next hv =>
+    have hv' : v < g.verts.length := by omega
+    obtain ⟨⟨h1, h2, h3⟩, hs, hg⟩ := h
+    have hlen : (g.verts.eraseIdx v).length = g.verts.length - 1 := by
+      rw [List.length_eraseIdx]; simp [hv']
+    have hS := idxList_remove g.starts v g.verts.length hv' hs.1 hs.2
+    have hG := idxList_remove g.goals v g.verts.length hv' hg.1 hg.2
+    have hf : ∀ e, e ∈ g.edges.filter (fun e => e.src != v && e.dst != v) → e ∈ g.edges ∧ e.src ≠ v ∧ e.dst ≠ v := by
+      intro e he
+      have := List.mem_filter.mp he
+      simp only [Bool.and_eq_true, bne_iff_ne, ne_eq] at this
+      exact ⟨this.1, this.2.1, this.2.2⟩
+    refine ⟨⟨?_, ?_, ?_⟩, ⟨hS.1, by simpa [hlen] using hS.2⟩, ⟨hG.1, by simpa [hlen] using hG.2⟩⟩
+    · intro e he
+      simp only at he
+      obtain ⟨e0, he0, rfl⟩ := List.mem_map.mp he
+      obtain ⟨hm, hs0, hd0⟩ := hf e0 he0
+      have := h1 e0 hm
+      simp only [hlen]
+      exact ⟨shift_bound v _ _ hs0 hv' this.1, shift_bound v _ _ hd0 hv' this.2⟩
+    · simp only
+      rw [List.pairwise_map]
+      refine (h2.filter _).imp_of_mem ?_
+      intro a b ha hb hab hh
+      obtain ⟨_, has, had⟩ := hf a ha
+      obtain ⟨_, hbs, hbd⟩ := hf b hb
+      simp only at hh
+      exact hab ⟨shift_inj v _ _ has hbs hh.1, shift_inj v _ _ had hbd hh.2⟩
+    · simp only
+      rw [List.pairwise_map]
+      refine (h3.filter _).imp_of_mem ?_
+      intro a b ha hb hab
+      obtain ⟨_, has, _⟩ := hf a ha
+      obtain ⟨_, hbs, _⟩ := hf b hb
+      simp only
+      exact shift_le v _ _ has hbs hab
+
 /-- graphs reachable from the empty `PlannerData` by the (fixed) operations -/
 inductive Built : Graph → Prop
   | empty : Built {}
@@ -747,6 +815,7 @@ inductive Built : Graph → Prop
   | markGoal {g} (i : Nat) : Built g → Built (g.markGoal i)
   | setTag {g} (i : Nat) (t : Int) : Built g → Built (g.setTag i t)
   | removeEdge {g} (a b : Nat) : Built g → Built (g.removeEdge a b).1
+  | removeVertex {g} (v : Nat) : Built g → Built (g.removeVertex v).1
 
 theorem Built.inv {g : Graph} (h : Built g) : g.Inv := by
   induction h with
@@ -757,6 +826,7 @@ theorem Built.inv {g : Graph} (h : Built g) : g.Inv := by
   | markGoal i _ ih => exact Inv_markGoal _ i ih
   | setTag i t _ ih => exact Inv_setTag _ i t ih
   | removeEdge a b _ ih => exact Inv_removeEdge _ a b ih
+  | removeVertex v _ ih => exact Inv_removeVertex _ v ih
 
 /-- the round trip for every graph the fixed operations can build, in which no vertex is both start and goal -/
 theorem load_store_graph_built (m : Nat) (sig csig : List Int) (g : Graph) (hb : Built g) (hD : Disjoint g) :
